@@ -58,6 +58,10 @@ static std::vector<Spec> histCircuits() {
     s.cells = {cell(3, 2, 9, 2), cell(2, 2, 12, 4), cell(2, 2, 15, 2), cell(2, 2, 0, 0), cell(4, 2, 20, 10), cell(14, 8, 6, 0, true, true)};
     v.push_back(s);
   }
+  {  // the first circuit at 10000 x 10000 units per grid step: every cell area fits in 31 bits, the total demand of a coarse bin does not
+    Spec s = scaled(v[0], 10000, 10000);
+    v.push_back(s);
+  }
   return v;
 }
 
@@ -118,7 +122,14 @@ struct Op { int kind, arg; };
 static const char *opNames[] = {"refineX", "refineY", "coarsenX", "coarsenY", "refine", "improve", "run", "improveXTransport", "improveYTransport",
                                 "improveSquare", "improveDiagonals", "improveXY", "updateTargets"};
 
+static float gTargetScale = 1.0f;
+static std::vector<std::vector<float>> targetMenuX1(int n);
 static std::vector<std::vector<float>> targetMenuX(int n) {
+  std::vector<std::vector<float>> m = targetMenuX1(n);
+  for (auto &v : m) for (auto &x : v) x *= gTargetScale;
+  return m;
+}
+static std::vector<std::vector<float>> targetMenuX1(int n) {
   std::vector<std::vector<float>> m;
   { std::vector<float> v(n); for (int i = 0; i < n; ++i) v[i] = 2.5f + 5.0f * i; m.push_back(v); }       // inside, spread
   { std::vector<float> v(n, 7.0f); m.push_back(v); }                                                  // coincident
@@ -279,6 +290,7 @@ static vf::Verdicts eval(const Spec &s, vf::Ctx &ctx) {
     return out;
   }
   // (b) pass graph
+  gTargetScale = (float)((s.rows[0].maxY - s.rows[0].minY) / 2);
   double binSize = 2.0, sideMargin = (s.aux2 % 2) ? 0.5 : 0.0;
   int mch;
   std::vector<Rect> clipped = clippedRows(s, c, sideMargin, mch);
@@ -357,7 +369,7 @@ int main(int argc, char **argv) {
   c.rule =
       "(a) DensityGrid / HierarchicalDensityPlacement::fromIspdCircuit on the GP alphabet (1/9, thorough 1/2) and on every layout x fixed-shape menu entry (row heights 1,2,3; with "
       "and without a short fixed cell that changes the smallest cell height) x bin sizes {1,1.5,2.5,5} x side margins {0,0.5,0.9,2}: bins tile the area, every bin capacity equals the "
-      "area of (clipped free rows ∩ bin) computed independently, every coarser level aggregates exactly; (b) breadth-first search on the real DensityLegalizer (3 circuits, one with a band of adjacent zero-capacity bins; 6x3..12x6 "
+      "area of (clipped free rows ∩ bin) computed independently, every coarser level aggregates exactly; (b) breadth-first search on the real DensityLegalizer (4 circuits, one with a band of adjacent zero-capacity bins, one scaled by 10000 so that the demand of a coarse bin exceeds 2^31; 6x3..12x6 "
       "bins with an obstruction notch / ragged rows, 5-6 cells incl. zero-demand) over {refineX, refineY, coarsenX, coarsenY, refine, improve, run, improveXTransport, "
       "improveYTransport, improveSquare, improveDiagonals, improveXY, 3 target updates (inside, coincident, outside)} x 8 (12) parameter variants (all cost models, reopt sizes 2 and 3), "
       "depth 4 (5); invariant in every state: capacity of the current view, each non-zero-demand cell in exactly one bin consistent with cellBinX/Y, zero-demand cells in none, "
